@@ -21,7 +21,7 @@
     hypothesis explicitly. *)
 From Coq Require Import Permutation.
 From VLib Require Import Akita ListX.
-From VMem Require Import Pipeline Dram DramProofs DramLive.
+From VMem Require Import Pipeline Dram DramProofs DramLive DramSleep.
 Open Scope N_scope.
 
 (** ** Exactly one response per accepted request, none spurious — both before
@@ -156,6 +156,41 @@ Theorem dram_every_request_answered : forall c evs,
       exists m, In m (g_retr s' ++ top_out s') /\ answers m r.
 Proof. exact every_request_answered. Qed.
 Print Assumptions dram_every_request_answered.
+
+(** ** Sleep safety.  The event engine stops ticking a component whose Tick
+    reports no progress until a message arrives or a port frees up.  For the
+    repaired code a tick that reports no progress leaves the state - every bank,
+    pipeline stage, delay counter, buffer, the pending list, the storage and the
+    port - exactly as it was, in every state (reachable or not): each of the five
+    parts of Tick is proved to return its input unchanged when it reports no
+    progress (finalizeBanks: nothing to send or port full; tickPipelines: every
+    occupied stage blocked; tickDelayQueues: all delay queues empty;
+    dispatchPending: every pending request found its pipeline full;
+    drainTopPort: port empty).  The converse does not hold for tickDelayQueues,
+    which reports progress whenever a delay queue is non-empty - that only costs
+    an extra tick. *)
+Theorem dram_sleep_safe : forall s s',
+  c_early (cf s) = true -> tick s = Some (s', false) -> s' = s.
+Proof. exact tick_quiet. Qed.
+Print Assumptions dram_sleep_safe.
+
+(** Observable corollary: after a tick that reported no progress, any number of
+    further ticks with no delivery or retrieval in between report no progress
+    either (and do not panic); the state stays the same. *)
+Theorem dram_quiet_stays_quiet : forall s n,
+  c_early (cf s) = true -> crashed s = false -> snd (step s ETick) = OTick false ->
+  run_obs s (repeat ETick n) = repeat (OTick false) n /\ run s (repeat ETick n) = s.
+Proof. intros s n He Hc H. apply quiet_stays_quiet; auto. Qed.
+Print Assumptions dram_quiet_stays_quiet.
+
+(** The code before the repair was not sleep-safe: with the Top port full of
+    unretrieved responses, the tick in which a write reaches the head of a
+    post-pipeline buffer performs the storage access and reports no progress. *)
+Theorem dram_sleep_unsafe_before_repair :
+  let s := run (init (sleep_cfg false)) sleep_witness in
+  exists s', tick s = Some (s', false) /\ stor s 256 = 0 /\ stor s' 256 = 7.
+Proof. exact sleep_unsafe_before_repair. Qed.
+Print Assumptions dram_sleep_unsafe_before_repair.
 
 (** ** Non-vacuity: the same history on the repaired component answers both
     requests, the read with the bytes just written; a masked write changes
